@@ -22,8 +22,10 @@ HARNESSES = {
     "c16": [("w_c16", None)],
     "c08": [("w_c08", ["check_fill_queue", "check_parallel_add_cms_w1", "check_parallel_add_cms_w2", "check_parallel_add_cms_w3", "check_parallel_add_cms_w4", "check_parallel_add_all", "check_parallel_add_all_w45", "check_parallel_merging", "check_items_generator"])],
     "c04": [("w_c13", None)],
+    "c03": [("w_c13", None)],
     "c19": [("w_c08", ["check_c19_callback_raises_w1", "check_c19_callback_raises_w2", "check_c19_dead_worker"])],
-    "c01": [("w_c12", ["check_add_value_linear", "check_update_dict_linear", "check_update_list_linear", "check_ngram_linear"])],
+    "c01": [("w_c12", ["check_add_value_linear", "check_update_dict_linear", "check_update_list_linear", "check_ngram_linear"]), ("w_c15", ["check_linear"])],
+    "c09": [("w_c15", ["check_linear", "check_log16", "check_log8"])],
     "c05": [("w_c12", ["check_add_value_linear", "check_add_value_log16", "check_add_value_log8"])],
     "c17": [("w_c17", None)],
     "c02": [("w_c17", ["check_query_current"]), ("w_c12", ["check_update_list_hll", "check_add_value_hll", "check_update_dict_hll", "check_ngram_hll"])],
